@@ -48,7 +48,7 @@ def handleC16Check : List String → Option String
       if !(m.all (modeHasCatchAll m)) then some "fail no-catch-all"
       else if gaps.isEmpty then some "ok"
       else
-        let cs := dedupNat (gaps.flatMap fun g => cpsInSpan w g.1.start g.1.stop)
+        let cs := dedupNatR (gaps.flatMap fun g => cpsInSpan w g.1.start g.1.stop)
         some ("fail gap-chars=" ++ Proto.showNats cs)
     else
       if m.any (modeHasCatchAll m) then some "fail catch-all-despite-allow"
